@@ -42,7 +42,20 @@ def build_impl(spec):
         if spec['kind'] == 'raw':
             obj = ThermochemRawData(spec['href'], spec['sref'], [p[0] for p in pts], [p[1] for p in pts],
                                     T_ref=spec['tref'], range=rng)
-XX
+        else:
+            cls = ThermochemGroup if spec['kind'] == 'grp' else ThermochemIncomplete
+            obj = cls(spec['href'], spec['sref'], dict((p[0], p[1]) for p in pts), spec['tref'], rng)
+            if spec.get('via_update') and pts:
+                # the same correlation reached in two steps: first other heat capacities on the same temperature grid and a
+                # narrower range (the table span and T_ref), then the final data merged in with overwrite.  The result must
+                # behave exactly like the directly constructed object (the interpolant has to be rebuilt).
+                ts = [p[0] for p in pts] + [spec['tref']]
+                narrow = None if rng is None else (max(rng[0], min(ts)), min(rng[1], max(ts)))
+                first = cls(None if spec['href'] is None else spec['href'] + 1.0, spec['sref'],
+                            dict((p[0], p[1] + 0.5) for p in pts), spec['tref'], narrow)
+                first.update(obj, overwrite=True)
+                obj = first
+        return obj, 'ok'
     except Exception as e:
         return None, exc_name(e)
 
